@@ -23,7 +23,9 @@ Readings adopted where the statement leaves room
   * "same caller identity": identities are compared as the token layer sees them, ((domain or ""), (principal or ""))
     for authenticated callers, one anonymous identity otherwise.  Domains are NUL-free (QUANTIFIER); R_C12 shows the
     collision that exists otherwise -- AuthContext itself does not forbid a NUL.
-  * "same key": equal after crypto.normalize_key (a 32-byte key k' = SHA-256(k) opens what k sealed).
+  * "same key": equal after crypto.normalize_key AS SPECIFIED (32 bytes: as is, otherwise SHA-256; the oracle computes it
+    itself): distinct keys are different keys unless one is the 32-byte SHA-256 digest of the other
+    (C12_normalize_key_injective, under collision-freeness of the hash).
   * "no detail distinguishing which check failed": every rejection is HTTP 400 with the same envelope, and all
     authenticity failures (foreign key, other identity, other token kind, wrong version byte, any modification of the
     envelope) yield ONE message per token kind, as docs/WIRE_PROTOCOL.md specifies.  The remaining messages depend
@@ -267,7 +269,7 @@ def run(ctx: Any) -> None:
                 "C12_aad_injective", "C12_cursor_call_not_interchangeable", "C12_layout_total", "C12_parse_cursor_exact",
                 "C12_parse_call_exact", "C12_cursor_served_only_if_minted", "C12_call_served_only_if_minted_cold",
                 "C12_reject_before_hooks", "C12_uniform_400", "C12_reject_classes", "C12_auth_failures_indistinguishable",
-                "C12_served_text_is_canonical",
+                "C12_served_text_is_canonical", "C12_normalize_key_injective",
             ],
             "T_Token": ["layouts_tie", "constants_tie", "raise_sites_tie", "C12_source_aad_injective", "C12_source_plaintexts_decodable"],
         },
@@ -293,8 +295,24 @@ def run(ctx: Any) -> None:
     W.app("k4", K4, TTL, False)
     W.app("k5", K5, TTL, False)
     W.app("k6", K6, TTL, False)
+    # distinct operator keys that are close to each other: sharing their first 32 bytes (a 32-byte key and the same key
+    # plus a suffix; two 64-byte keys differing in the tail; prefix + "/east" vs "/west"), or differing only inside them
+    PFX = b"operator-master-key-material-0123456789"
+    NEAR_KEYS: dict[str, bytes] = {
+        "kx_ext": K1 + b"-suffix",                      # K1 (apps cold / warm) is its first 32 bytes
+        "kx_64b": K4[:60] + b"TAIL",                    # K4 (app k4) with another tail
+        "kx_east": PFX + b"/east",
+        "kx_west": PFX + b"/west",
+        "kx_in32": K1[:31] + bytes([K1[31] ^ 1]),       # 32 bytes, last byte differs from K1
+        "kx_in40a": b"A" + PFX,
+        "kx_in40b": b"B" + PFX,                         # differ only in byte 0
+    }
+    for nm, kk in NEAR_KEYS.items():
+        W.app(nm, kk, TTL, False)
+    W.app("kx_ext_warm", NEAR_KEYS["kx_ext"], TTL, True)
 
     cases: list[dict[str, Any]] = []
+    AUTHI0 = 5  # ("jwt", "alice")
 
     def case(cls: str, app: str, method: str, cur: bytes | None, call: bytes | None, ident: Any, now1: int, now2: int | None = None, cancel: bool = False, **info: Any) -> None:
         cases.append({"cls": cls, "app": app, "method": method, "cur": cur, "call": call, "ident": ident, "now1": now1, "now2": now1 if now2 is None else now2, "cancel": cancel, **info})
@@ -314,6 +332,9 @@ def run(ctx: Any) -> None:
         for ii in (0, 5):
             streams[(app, ii, "prod")] = W.init(app, "prod", {"limit": 1000, "pad": "k"}, IDENTS[ii], T0)
             streams[(app, ii, "ex")] = W.init(app, "ex", {"a": 1, "label": app}, IDENTS[ii], T0)
+    for app in [*NEAR_KEYS, "kx_ext_warm"]:
+        streams[(app, AUTHI0, "prod")] = W.init(app, "prod", {"limit": 1000, "pad": "k"}, IDENTS[AUTHI0], T0)
+        streams[(app, AUTHI0, "ex")] = W.init(app, "ex", {"a": 1, "label": "near"}, IDENTS[AUTHI0], T0)
     # a later turn of a stream: its cursor is re-minted, the call token is not
     later: dict[tuple[int, str], bytes] = {}
     for ii in (0, 1, 5):
@@ -538,9 +559,28 @@ def run(ctx: Any) -> None:
             for ii in (0, 5):
                 for m in ("prod", "ex"):
                     cur, call = streams[(a, ii, m)]
-                    case("foreign-key", b, m, cur, call, IDENTS[ii], T0 + 1)
+                    case("foreign-key", b, m, cur, call, IDENTS[ii], T0 + 1, minted_app=a)
                     curb, callb = streams[(b, ii, m)]
-                    case("foreign-key", b, m, curb, call, IDENTS[ii], T0 + 1)
+                    case("foreign-key", b, m, curb, call, IDENTS[ii], T0 + 1, minted_app=a)
+    # ... and the near-key pairs, in both directions, on cold and warm workers (always generated)
+    near_pairs = [("cold", "kx_ext"), ("warm", "kx_ext"), ("cold", "kx_ext_warm"), ("k4", "kx_64b"), ("kx_east", "kx_west"),
+                  ("cold", "kx_in32"), ("warm", "kx_in32"), ("kx_in40a", "kx_in40b"), ("kx_ext", "kx_64b"), ("kx_east", "kx_in40a")]
+    for a0, b0 in near_pairs:
+        for a, b in ((a0, b0), (b0, a0)):
+            for m in ("prod", "ex"):
+                cur, call = streams[(a, AUTHI0, m)]
+                curb, callb = streams[(b, AUTHI0, m)]
+                case("foreign-key", b, m, cur, call, IDENTS[AUTHI0], T0 + 1, minted_app=a)
+                case("foreign-key", b, m, cur, None, IDENTS[AUTHI0], T0 + 1, minted_app=a)
+                if not W.app_cfg[b][2]:  # on a warm worker the cache answers for the call token (C14)
+                    case("foreign-key", b, m, curb, call, IDENTS[AUTHI0], T0 + 1, minted_app=a)
+                case("foreign-key", b, m, cur, callb, IDENTS[AUTHI0], T0 + 1, minted_app=a)
+    # the same key in two apps (cold / warm worker) stays genuine
+    for m in ("prod", "ex"):
+        cur, call = streams[("kx_ext", AUTHI0, m)]
+        case("genuine", "kx_ext_warm", m, cur, call, IDENTS[AUTHI0], T0 + 1)
+        cur, call = streams[("kx_ext_warm", AUTHI0, m)]
+        case("genuine", "kx_ext", m, cur, call, IDENTS[AUTHI0], T0 + 1)
 
     # 9. clock offsets around the TTL (cursor minted at T0+10, call token at T0), two clock reads
     for ii in (0, AUTHI):
@@ -674,6 +714,14 @@ def run(ctx: Any) -> None:
                 "tokens minted for one caller identity were served to a caller with another identity"
                 + (" (unauthenticated vs authenticated ''/None + 'anonymous')" if alias else ""),
                 {**repl, "minted_for": repr(IDENTS[c["minted_for"]])},
+            )
+        if status == 200 and c["cls"] == "foreign-key":
+            ka = W.app_cfg[c["minted_app"]][0]
+            shared = ka != key and ka[:32] == key[:32] and len(ka) >= 32 and len(key) >= 32
+            ctx.violation(
+                "served-foreign-key:shared-32-byte-prefix" if shared else "served-foreign-key",
+                "a server holding one key served tokens minted under a different key" + (" (the two keys share their first 32 bytes)" if shared else ""),
+                {**repl, "minted_under_key_hex": ka.hex()},
             )
         if status == 200:
             # served  =>  cursor sealed by a key holder for this caller, not older than the TTL, ...
